@@ -51,7 +51,13 @@ type Stats struct {
 	Executions int
 	MaxDepth   int
 	Diverged   []string
+	Stopped    bool // Stop() answered true: the exploration was cut short (first counterexamples suffice)
 }
+
+// Stop, when set, is asked before every execution; true ends the current exploration early. A harness sets it to
+// stop a scenario once it has committed a few counterexamples (each further execution of a broken tree can run to
+// its step horizon), or at a wall-clock budget. An exploration that was stopped is not exhaustive (Stats.Stopped).
+var Stop func() bool
 
 // Explore runs body on every choice sequence within the deviation bound (DFS). After each execution visit is
 // called with the context (so the harness can evaluate its oracle with the trace available).
@@ -188,6 +194,10 @@ func ExploreShard(bound, shard, n int, body func(c *Ctx), visit func(c *Ctx)) St
 	counter := 0
 	var rec func(prefix []int, depth int, owned bool)
 	rec = func(prefix []int, depth int, owned bool) {
+		if Stop != nil && Stop() {
+			st.Stopped = true
+			return
+		}
 		// owned: this whole subtree belongs to this shard. Otherwise (depth < splitDepth) the node is shared.
 		mine := owned
 		if !owned {
